@@ -9,13 +9,14 @@ LEVEL = "exploration"
 TECHNIQUE = "hook-2 event count + reference-model replay (R3): number of rewrites <= budget, stream after exactly that many reference steps, 'still rewritable' test on the output, error flag; budgets swept around every family's exact need, under ASan+UBSan"
 FLAVOURS = [("asan", "generated")]
 RULE = ("self-reproducing, mutually recursive, linearly growing, shrinking, exactly-k-step, empty-bodied and slot-duplicating macro sets x pass budgets "
-        "{1..20, 63, 64, 65, 1023, 1024} (and k-1, k, k+1 around the exact need k) through apply_macros, and budget 1024 through compile; the hook must "
+        "{1..20, 63, 64, 65, 1023, 1024} (and k-1, k, k+1 around the exact need k; terminating sets also with 65535, 65536, 2^31-1, 2^31, 2^31+1, 3*10^9, 2^32-1) through apply_macros, and budget 1024 through compile; the hook must "
         "fire at most `budget` times, the output must equal the reference stream after exactly that many steps, a too-many-substitutions error must be "
         "present whenever the reference can still rewrite the output (and absent when the expansion finished earlier; allowed when exactly the budget "
         "was needed), and compile must not mark such a result correct; non-trivial = >= 1 rewrite; distinct by (source, budget)")
 ASSUMPTIONS = ["R3 decides 'rewriting still possible'",
                "KF1: slot-duplicating self-reproducing macros double the stream per pass - exercised only with budgets <= 10, wrapping macros with budgets <= 64"]
 BUDGETS = list(range(1, 21)) + [63, 64, 65, 1023, 1024]
+HUGE = [65535, 65536, 2 ** 31 - 1, 2 ** 31, 2 ** 31 + 1, 3000000000, 2 ** 32 - 1]
 
 
 def families(r):
@@ -66,9 +67,11 @@ def plan(tier, seed):
             bs = [b for b in BUDGETS if b <= maxb]
             if need:
                 bs += [b for b in (need - 1, need, need + 1) if 1 <= b <= maxb]
+                if maxb >= 1024 and need <= 64:
+                    bs += HUGE      # a terminating set is done after `need` rewrites whatever the budget: the whole unsigned range is legal
             bs = sorted(set(bs))
             if tier == "quick":
-                bs = [b for b in bs if b < 1000 or name in ("self", "grow-linear", "chain64")]
+                bs = [b for b in bs if b < 1000 or name in ("self", "grow-linear", "chain64") or (b in HUGE and name in ("chain5", "uses3", "shrink7", "skip5", "self-twin-terminating"))]
             per[fi] = bs
         small = {fi: [b for b in bs if b < 1000] for fi, bs in per.items()}
         allb = sorted(set(x for v in small.values() for x in v))
